@@ -1,4 +1,254 @@
+// C14 harness, part 3: the message handlers built on the decoder, driven with
+// hostile payloads under recover: ucon.MessageHandler.HandleMsg (consensus
+// gossip entry point) and staking.TxConverter.ApplyMessage (staking
+// transaction entry point).  The property clause is "reject rather than crash".
 package main
 
-func handlerCampaign(g *genState, n int) {}
-func replayHandler(g *genState, h hit)  {}
+import (
+	"crypto/ecdsa"
+	"encoding/hex"
+	"fmt"
+	"math/big"
+	"strings"
+	"time"
+
+	"github.com/youchainhq/go-youchain/common"
+	"github.com/youchainhq/go-youchain/consensus/ucon"
+	"github.com/youchainhq/go-youchain/core"
+	"github.com/youchainhq/go-youchain/core/state"
+	"github.com/youchainhq/go-youchain/core/types"
+	"github.com/youchainhq/go-youchain/core/vm"
+	"github.com/youchainhq/go-youchain/crypto"
+	"github.com/youchainhq/go-youchain/event"
+	"github.com/youchainhq/go-youchain/local"
+	"github.com/youchainhq/go-youchain/params"
+	"github.com/youchainhq/go-youchain/rlp"
+	"github.com/youchainhq/go-youchain/staking"
+	"github.com/youchainhq/go-youchain/youdb"
+	"verif/harness/vf"
+)
+
+var (
+	hKey *ecdsa.PrivateKey
+	hMh  *ucon.MessageHandler
+)
+
+func handlerSetup() {
+	if hMh != nil {
+		return
+	}
+	hKey, _ = crypto.ToECDSA(common.Hex2Bytes("289c2857d4598e37fb9647507e47a309d6133539bf21a8b9cb6df88fd5232032"))
+	val := state.NewValidator("v", common.Address{1}, common.Address{2}, params.RoleChancellor, nil, nil,
+		big.NewInt(1000), big.NewInt(10), 0, 0, 0, params.ValidatorOnline)
+	getVal := func(round *big.Int, addr common.Address, lb params.LookBackType) (*state.Validator, bool) {
+		return val, false
+	}
+	hMh = ucon.NewMessageHandler(hKey, new(event.TypeMux), getVal,
+		func(ev ucon.ReceivedMsgEvent) (error, bool) { return nil, true },
+		func(msg *ucon.CachedPriorityMessage, st ucon.MsgReceivedStatus) (error, bool) { return nil, false },
+		func(msg *ucon.CachedBlockMessage, st ucon.MsgReceivedStatus) (error, bool) { return nil, false },
+		func(ev ucon.VoteMsgEvent, st ucon.MsgReceivedStatus) (error, bool) { return nil, false })
+}
+
+func runHandleMsg(data []byte) (res string, pan string) {
+	handlerSetup()
+	func() {
+		defer func() {
+			if x := recover(); x != nil {
+				pan = fmt.Sprint(x)
+			}
+		}()
+		if err := hMh.HandleMsg(data, time.Now()); err != nil {
+			res = "error"
+			if strings.Contains(err.Error(), "decode from msg.data") {
+				res = "error:outer-decode"
+			} else if strings.Contains(err.Error(), "rlp") {
+				res = "error:payload-decode"
+			} else if strings.Contains(err.Error(), "ignature") || strings.Contains(err.Error(), "recovery") {
+				res = "error:signature"
+			}
+		} else {
+			res = "nil"
+		}
+	}()
+	return
+}
+
+// a consensus message with a valid signature around an arbitrary payload
+func signedMsg(code uint8, payload []byte) []byte {
+	sig, err := ucon.Sign(hKey, append(append([]byte{}, payload...), code))
+	if err != nil {
+		sig = nil
+	}
+	b, _ := rlp.EncodeToBytes([]interface{}{code, payload, sig})
+	return b
+}
+
+func runApplyMessage(data []byte, version params.YouVersion) (res string, pan string) {
+	func() {
+		defer func() {
+			if x := recover(); x != nil {
+				pan = fmt.Sprint(x)
+			}
+		}()
+		st, err := state.New(common.Hash{}, common.Hash{}, common.Hash{}, state.NewDatabase(youdb.NewMemDatabase()))
+		if err != nil {
+			res = "setup-error"
+			return
+		}
+		from := common.Address{0xaa}
+		st.AddBalance(from, new(big.Int).Lsh(big.NewInt(1), 90))
+		to := params.StakingModuleAddress
+		msg := types.NewMessage(from, &to, 0, new(big.Int), 10000000, big.NewInt(1), data, false)
+		yp := params.Versions[version]
+		cfg := &vm.Config{}
+		cfg.CurrYouParams = &yp
+		header := &types.Header{Number: big.NewInt(100), CurrVersion: version, Time: 1600000000}
+		gp := new(core.GasPool).AddGas(100000000)
+		ctx := core.NewMsgContext(msg, st, nil, header, common.Address{3}, gp, cfg, local.FakeRecorder())
+		ctx.InitialGas, ctx.AvailableGas = 10000000, 10000000
+		_, _, failed, err := (&staking.TxConverter{}).ApplyMessage(ctx)
+		switch {
+		case err != nil:
+			res = "error"
+		case failed:
+			res = "failed"
+		default:
+			res = "applied"
+		}
+	}()
+	return
+}
+
+// is data a staking.Message whose payload decodes as the type of its action?
+func stakingDecodable(data []byte) bool {
+	var m staking.Message
+	if rlp.DecodeBytes(data, &m) != nil {
+		return false
+	}
+	tn := map[staking.ActionType]string{staking.ValidatorCreate: "TxCreateValidator", staking.ValidatorUpdate: "TxUpdateValidator",
+		staking.ValidatorDeposit: "TxValidatorDeposit", staking.ValidatorWithDraw: "TxValidatorWithdraw",
+		staking.ValidatorChangeStatus: "TxValidatorChangeStatus", staking.ValidatorSettle: "TxValidatorSettle",
+		staking.DelegationAdd: "TxDelegation", staking.DelegationSub: "TxDelegation", staking.DelegationSettle: "TxDelegationSettle"}[m.Action]
+	if tn == "" {
+		return false
+	}
+	return goDecode(entryByName(tn), m.Payload, false).Accepted
+}
+
+func hostilePayload(g *genState, names ...string) []byte {
+	r := g.r
+	e := entryByName(names[r.Intn(len(names))])
+	if len(g.valid[e.name]) == 0 {
+		for k := 0; k < 3; k++ {
+			g.valueCase(e)
+		}
+		// the cases added here are ordinary value cases
+	}
+	if r.Chance(30) && len(g.valid[e.name]) > 0 {
+		return g.valid[e.name][r.Intn(len(g.valid[e.name]))]
+	}
+	b, _ := g.hostile(e)
+	return b
+}
+
+func handlerCampaign(g *genState, n int) {
+	handlerSetup()
+	r := g.r
+	for i := 0; i < n; i++ {
+		switch r.Intn(3) {
+		case 0: // raw bytes at the gossip entry point
+			var data []byte
+			if r.Bool() {
+				data, _ = g.hostile(entryByName("UconMessage"))
+			} else {
+				data = signedMsg(uint8(r.Intn(8)), r.Bytes(r.Heavy(80)))
+			}
+			res, pan := runHandleMsg(data)
+			g.handlerObs("HandleMsg", data, 0, res, pan)
+		case 1: // valid signature, hostile payload for the code
+			code := uint8(1 + r.Intn(6))
+			var p []byte
+			switch code {
+			case 1:
+				p = hostilePayload(g, "ConsensusCommon")
+			case 2:
+				p = hostilePayload(g, "Block")
+			default:
+				p = hostilePayload(g, "BlockHashWithVotes")
+			}
+			if r.Chance(10) { // payload of another message kind
+				p = hostilePayload(g, "ConsensusCommon", "Block", "BlockHashWithVotes", "UconValidators")
+			}
+			data := signedMsg(code, p)
+			res, pan := runHandleMsg(data)
+			g.handlerObs("HandleMsg", data, 0, res, pan)
+			// reject: a payload that does not decode as the type of its code must give an error
+			tn := map[uint8]string{1: "ConsensusCommon", 2: "Block"}[code]
+			if tn == "" {
+				tn = "BlockHashWithVotes"
+			}
+			if pan == "" && res == "nil" && !goDecode(entryByName(tn), p, false).Accepted {
+				g.hit(hit{What: "handler-accepted-undecodable-payload:HandleMsg", Type: "handler:HandleMsg", Bytes: hex.EncodeToString(data), Note: fmt.Sprintf("code=%d", code)})
+			}
+		default: // staking transaction data
+			var data []byte
+			if r.Chance(25) {
+				data, _ = g.hostile(entryByName("StakingMessage"))
+			} else {
+				acts := []uint8{uint8(staking.ValidatorCreate), uint8(staking.ValidatorUpdate), uint8(staking.ValidatorDeposit),
+					uint8(staking.ValidatorWithDraw), uint8(staking.ValidatorChangeStatus), uint8(staking.ValidatorSettle),
+					uint8(staking.DelegationAdd), uint8(staking.DelegationSub), uint8(staking.DelegationSettle), 0, 7, 0xff}
+				a := acts[r.Intn(len(acts))]
+				p := hostilePayload(g, "TxCreateValidator", "TxUpdateValidator", "TxValidatorDeposit", "TxValidatorWithdraw",
+					"TxValidatorChangeStatus", "TxValidatorSettle", "TxDelegation", "TxDelegationSettle")
+				data, _ = rlp.EncodeToBytes([]interface{}{a, p})
+			}
+			v := params.YouVersion(1 + r.Intn(int(params.YouCurrentVersion)))
+			if _, ok := params.Versions[v]; !ok {
+				v = params.YouCurrentVersion
+			}
+			res, pan := runApplyMessage(data, v)
+			g.handlerObs("ApplyMessage", data, uint64(v), res, pan)
+			if pan == "" && res == "applied" && !stakingDecodable(data) {
+				g.hit(hit{What: "handler-accepted-undecodable-payload:ApplyMessage", Type: "handler:ApplyMessage", Bytes: hex.EncodeToString(data), Note: fmt.Sprintf("version=%d", v)})
+			}
+		}
+	}
+}
+
+func (g *genState) handlerObs(which string, data []byte, version uint64, res, pan string) {
+	if pan != "" {
+		g.res.Count("handler_panic:" + which)
+		g.hit(hit{What: "panic:handler:" + which, Type: "handler:" + which, Bytes: hex.EncodeToString(data), Note: fmt.Sprintf("version=%d panic=%s", version, pan)})
+		return
+	}
+	g.res.Count("handler:" + which + ":" + res)
+	g.res.Extra["handler_inputs"] = toInt(g.res.Extra["handler_inputs"]) + 1
+}
+
+func toInt(x interface{}) int {
+	if v, ok := x.(int); ok {
+		return v
+	}
+	return 0
+}
+
+func replayHandler(g *genState, h hit) {
+	data, _ := hex.DecodeString(h.Bytes)
+	var res, pan string
+	if h.Type == "handler:HandleMsg" {
+		res, pan = runHandleMsg(data)
+	} else {
+		var v uint64
+		fmt.Sscanf(h.Note, "version=%d", &v)
+		if v == 0 {
+			v = uint64(params.YouCurrentVersion)
+		}
+		res, pan = runApplyMessage(data, params.YouVersion(v))
+	}
+	fmt.Println("result:", res, "panic:", pan)
+	g.handlerObs(strings.TrimPrefix(h.Type, "handler:"), data, 0, res, pan)
+}
+
+var _ = vf.NewRng
